@@ -175,7 +175,7 @@ def results_equal(r1, r2):
 
 
 DERIVATIONS = ("laplace", "diff", "neg", "add0", "mul", "rot", "pad", "abs")
-RELABELS = ("vdims_perm", "vdims_new", "mapping_set")
+RELABELS = ("vdims_perm", "vdims_new", "mapping_set", "mapping_item", "mapping_clear")
 
 
 def derive(f, how, dims):
@@ -203,9 +203,15 @@ def relabel(w, how, dims):
         w.vdims = labels[1:] + labels[:1]
     elif how == "vdims_new":
         w.vdims = [f"k{j}q" for j in range(len(labels))]
-    else:
+    elif how == "mapping_set":
         tgt = list(dims) + ["nope"]
         w.vdim_mapping = {l: tgt[(j + 1) % len(tgt)] for j, l in enumerate(labels)}
+    elif how == "mapping_item":
+        # the dictionary a field hands out is its own: writing into the derived field's one
+        w.vdim_mapping[labels[0]] = dims[-1] if w.vdim_mapping.get(labels[0]) != dims[-1] else "nope"
+        w.vdim_mapping["extra-key"] = dims[0]
+    else:
+        w.vdim_mapping.clear()
 
 
 def derived_relabel_check(f, op, dims, res, st, before, choices):
@@ -218,6 +224,9 @@ def derived_relabel_check(f, op, dims, res, st, before, choices):
         stw, w = attempt(lambda: derive(f, how, dims))
         if stw != "ok" or w.vdims is None or w.nvdim != f.nvdim:
             continue
+        if w.vdim_mapping is f.vdim_mapping or np.shares_memory(w.array, f.array) or w.vdims is f.vdims:
+            broken.append(f"{how}/shares-object")
+            break
         attempt(lambda: relabel(w, rl, dims))
         same = snap_equal(before, snapshot(f))
         st4, res4 = attempt(lambda: get_op(f, op))
@@ -744,6 +753,8 @@ def hardening_cases(rng, tier):
         for _ in range(8 if q else 60):
             while True:
                 base = fitting_case(rng, tier, op=op)
+                if op == "grad" and base["mapclass"] == "scalar-mapped":
+                    break                   # grad takes scalar fields: labelled, mapped ones
                 if base["nvdim"] > 1 and (base["mapclass"] == "permutation" or op == "laplace"):
                     break
             base = dict(base)
@@ -897,6 +908,10 @@ def run_case(c):
         return rec
     f, dims, aux = r
     flag = rec["oracle"].append
+    if aux.get("vmap") is not None and f.vdim_mapping is aux["vmap"]:
+        flag("field-keeps-callers-mapping-dict")
+    if aux.get("vdims") is not None and f.vdims is aux["vdims"]:
+        flag("field-keeps-callers-label-list")
     skipped = []
     if c.get("pre"):
         skipped = apply_pre(f, c, dims)
@@ -940,11 +955,11 @@ def run_case(c):
     if f.vdims is not None and len(dims) >= 1:
         if c.get("stream") == "derived":
             hh = hash(tuple(c["vals"][:5]))
-            choices = [(h_, RELABELS[(hh + j) % 3]) for j, h_ in enumerate(DERIVATIONS) if not (h_ == "rot" and nd < 2)]
+            choices = [(h_, RELABELS[(hh + j) % len(RELABELS)]) for j, h_ in enumerate(DERIVATIONS) if not (h_ == "rot" and nd < 2)]
         else:
             hh = hash(tuple(c["vals"][:5]))
             hows = [h_ for h_ in DERIVATIONS if not (h_ == "rot" and nd < 2)]
-            choices = [(hows[hh % len(hows)], RELABELS[(hh // 11) % 3])]
+            choices = [(hows[hh % len(hows)], RELABELS[(hh // 11) % len(RELABELS)])]
         broken = derived_relabel_check(f, op, dims, res if st == "ok" else None, st, before, choices)
         if broken:
             flag("operand-changed-through-derived-field")
